@@ -165,11 +165,14 @@ fn reaction(r: React) -> Reaction {
     }
 }
 
-fn build_barrier(r: React, ty: u8, c: Cond) -> Option<AnyBarrier> {
-    Some(match ty {
-        0 => AnyBarrier::A(Barrier::build(reaction(r), move |e: &EvA| c.eval(e.val))),
-        1 => AnyBarrier::B(Barrier::build(reaction(r), move |e: &EvB| c.eval(e.val))),
-        2 => AnyBarrier::C(Barrier::build(reaction(r), move |e: &FsCorruption| c.eval(fs_val(&e.path)))),
+fn build_barrier(r: React, ty: u8, c: Cond, via_new: bool) -> Option<AnyBarrier> {
+    Some(match (ty, via_new) {
+        (0, true) => AnyBarrier::A(Barrier::new(move |e: &EvA| c.eval(e.val))),
+        (1, true) => AnyBarrier::B(Barrier::new(move |e: &EvB| c.eval(e.val))),
+        (2, true) => AnyBarrier::C(Barrier::new(move |e: &FsCorruption| c.eval(fs_val(&e.path)))),
+        (0, false) => AnyBarrier::A(Barrier::build(reaction(r), move |e: &EvA| c.eval(e.val))),
+        (1, false) => AnyBarrier::B(Barrier::build(reaction(r), move |e: &EvB| c.eval(e.val))),
+        (2, false) => AnyBarrier::C(Barrier::build(reaction(r), move |e: &FsCorruption| c.eval(fs_val(&e.path)))),
         _ => return None,
     })
 }
@@ -192,18 +195,34 @@ fn do_trigger_noop(ty: u8, val: u32, tid: u32) {
     }
 }
 
+type HeldFut<T> = Pin<Box<dyn Future<Output = Option<Triggered<T>>>>>;
+
+/// A `wait()` future the test keeps parked across other operations (a waiter that registered *before* the
+/// trigger arrives). It borrows its barrier: the barrier is boxed (stable address) and the future is always
+/// dropped before the barrier is touched in any other way.
+enum HeldWait {
+    A(HeldFut<EvA>),
+    B(HeldFut<EvB>),
+    C(HeldFut<FsCorruption>),
+}
+
 /// Test-side half shared by both backends: barriers, handles, wait / drop.
 #[derive(Default)]
 struct TestSide {
-    barriers: Vec<Option<AnyBarrier>>,
+    /// declared first: dropped before the barriers they borrow
+    held: BTreeMap<u32, HeldWait>,
+    barriers: Vec<Option<Box<AnyBarrier>>>,
     handles: BTreeMap<u32, AnyTriggered>,
+    waits: BTreeMap<u32, u32>,
 }
 
 impl TestSide {
     fn build(&mut self, r: React, ty: u8, c: Cond) -> String {
-        match build_barrier(r, ty, c) {
+        // `Barrier::new(c)` is `Barrier::build(Reaction::Noop, c)`: every other Noop barrier goes through it
+        let via_new = r == React::Noop && self.barriers.len() % 2 == 0;
+        match build_barrier(r, ty, c, via_new) {
             Some(b) => {
-                self.barriers.push(Some(b));
+                self.barriers.push(Some(Box::new(b)));
                 format!("built {}", self.barriers.len() - 1)
             }
             None => "invalid".into(),
@@ -213,13 +232,30 @@ impl TestSide {
         let Some(Some(bar)) = self.barriers.get_mut(b as usize) else {
             return "invalid".into();
         };
+        let nth = {
+            let c = self.waits.entry(b).or_insert(0);
+            *c += 1;
+            *c
+        };
+        // a wait future left parked by an earlier `wait` on this barrier is polled again; otherwise a fresh one.
+        // A pending fresh one is kept parked every other time (cancelling and re-issuing `recv` is equivalent).
         macro_rules! go {
-            ($bar:expr, $wrap:path, $ty:expr, $val:expr, $tid:expr) => {{
-                let mut fut = Box::pin($bar.wait());
-                let polled = poll_once(fut.as_mut());
-                drop(fut);
-                match polled {
-                    Poll::Pending => "pending".to_string(),
+            ($bar:expr, $t:ty, $held:path, $wrap:path, $ty:expr, $val:expr, $tid:expr) => {{
+                let mut fut = match self.held.remove(&b) {
+                    Some($held(f)) => f,
+                    _ => {
+                        let bar_static: &'static mut Barrier<$t> = unsafe { &mut *($bar as *mut Barrier<$t>) };
+                        let f: HeldFut<$t> = Box::pin(bar_static.wait());
+                        f
+                    }
+                };
+                match poll_once(fut.as_mut()) {
+                    Poll::Pending => {
+                        if nth % 2 == 0 {
+                            self.held.insert(b, $held(fut));
+                        }
+                        "pending".to_string()
+                    }
                     Poll::Ready(None) => "closed".to_string(),
                     Poll::Ready(Some(t)) => {
                         let (val, tid): (u32, u32) = ($val(&t), $tid(&t));
@@ -229,11 +265,13 @@ impl TestSide {
                 }
             }};
         }
-        match bar {
-            AnyBarrier::A(bar) => go!(bar, AnyTriggered::A, 0, |t: &Triggered<EvA>| t.val, |t: &Triggered<EvA>| t.tid),
-            AnyBarrier::B(bar) => go!(bar, AnyTriggered::B, 1, |t: &Triggered<EvB>| t.val, |t: &Triggered<EvB>| t.tid),
+        match &mut **bar {
+            AnyBarrier::A(bar) => go!(bar, EvA, HeldWait::A, AnyTriggered::A, 0, |t: &Triggered<EvA>| t.val, |t: &Triggered<EvA>| t.tid),
+            AnyBarrier::B(bar) => go!(bar, EvB, HeldWait::B, AnyTriggered::B, 1, |t: &Triggered<EvB>| t.val, |t: &Triggered<EvB>| t.tid),
             AnyBarrier::C(bar) => go!(
                 bar,
+                FsCorruption,
+                HeldWait::C,
                 AnyTriggered::C,
                 2,
                 |t: &Triggered<FsCorruption>| fs_val(&t.path),
@@ -246,6 +284,7 @@ impl TestSide {
         "ok".into()
     }
     fn drop_barrier(&mut self, b: u32) -> String {
+        self.held.remove(&b); // the parked waiter goes first
         match self.barriers.get_mut(b as usize) {
             Some(slot @ Some(_)) => {
                 *slot = None;
